@@ -188,6 +188,33 @@ func TestC19(t *testing.T) {
 				t.Fatalf("%s (replay %s)", bad[0], p)
 			}
 		}
+		if A.ListFail && rapid.IntRange(0, 9).Draw(t, "longHistory") == 4 {
+			// a replica that cannot be listed cycle after cycle, a coordinator with a period: the other replica is
+			// still coordinated in every one of 14 cycles, and those cycles come at the pace of the period
+			po := opt
+			po.PeriodMS = 5
+			var hist []*Scenario
+			for k := 0; k < 14; k++ {
+				sc := &Scenario{Opt: po, Targets: targets, Replicas: []ReplicaSpec{A, B}, RandSeed: seed}
+				var c Scenario
+				bs, _ := json.Marshal(sc)
+				_ = json.Unmarshal(bs, &c)
+				hist = append(hist, &c)
+			}
+			trs := ExecSeq(hist)
+			cls = append(cls, "A-fails-to-list-for-14-cycles-with-a-period")
+			for k, tr := range trs {
+				if tr.Hung {
+					fail([]vkit.Violation{{Key: "C19/failing-replica-slows-the-others", Msg: fmt.Sprintf("replica A cannot be listed; with a period of 5 ms 14 cycles did not complete within 20 s (stuck in cycle %d) although every shard of replica B answers at once", k+1)}}, pair, nil)
+				}
+				if tr.Panic != "" {
+					fail([]vkit.Violation{{Key: "C19/crash", Msg: tr.Panic}}, pair, nil)
+				}
+				if k > 0 && len(B.Shards) > 0 && len(tr.Replicas) > 1 && tr.Replicas[1].ListCalls == 0 {
+					fail([]vkit.Violation{{Key: "C19/failing-replica-affects-other/history", Msg: fmt.Sprintf("cycle %d of 14: replica B was not even listed", k+1)}}, pair, tr)
+				}
+			}
+		}
 		if mode == "differential" {
 			execs := Execs()
 			if slowA {
